@@ -797,6 +797,8 @@ class TokenizerCore:
             self.tokens = self.tokens[:tokens]
             text = self.sql[start : self._current].strip()
             if text:
+                # the string spans the whole command text, not just its last inner token
+                self._start = self.sql.index(text, start)
                 self._add(TokenType.STRING, text)
 
     def _scan_keywords(self) -> None:
